@@ -94,6 +94,26 @@ try:
     MODULES['Year'] = gen_year.generate
 except ImportError:
     pass
+try:
+    import gen_regex
+    MODULES['Regex'] = gen_regex.generate
+except ImportError:
+    pass
+try:
+    import gen_patsel
+    MODULES['PatSel'] = gen_patsel.generate
+except ImportError:
+    pass
+try:
+    import gen_syslcache
+    MODULES['SyslCache'] = gen_syslcache.generate
+except ImportError:
+    pass
+try:
+    import gen_fixedrender
+    MODULES['FixedRender'] = gen_fixedrender.generate
+except ImportError:
+    pass
 
 
 def main():
